@@ -41,7 +41,7 @@ def run(ctx):
                 if cutmode == "classes" and ctx.quick:
                     rr = rng(ctx.seed, "c15/%s/%s" % (s["id"], f))
                     b = [8, 8 + lay[s["id"]][f][1], 8 + lay[s["id"]][f][1] + lay[s["id"]][f][2]]
-                    must = [c for c in cs if c in (0, 1, 7, 8, 9, total - 1) or any(abs(c - x) <= 1 for x in b)]
+                    must = [c for c in cs if c in (0, 1, 7, 8, 9, total - 1) or any(abs(c - x) <= 1 for x in b) or c in (1048575, 1048576, 1048577, 2097152, 3145728, 4194303, 4194304, 4194305, 8388608, (total >> 20) << 20)]
                     rest = [c for c in cs if c not in must]
                     rr.shuffle(rest)
                     cs = sorted(set(must + rest[:14]))
